@@ -908,8 +908,10 @@ class Rewriter:
                 mlog.error('Can not add target', mlog.bold(cmd['target']), 'because it already exists', *self.on_error())
                 return self.handle_error()
 
-            id_base = re.sub(r'[- ]', '_', cmd['target'])
-            target_id = id_base + '_exe' if cmd['target_type'] == 'executable' else '_lib'
+            id_base = re.sub(r'[^0-9A-Za-z_]', '_', cmd['target'])
+            if not id_base or id_base[0].isdigit():
+                id_base = '_' + id_base
+            target_id = id_base + ('_exe' if cmd['target_type'] == 'executable' else '_lib')
             source_id = id_base + '_sources'
             filename = os.path.join(os.getcwd(), self.interpreter.source_root, cmd['subdir'], environment.build_filename)
 
